@@ -22,7 +22,7 @@ Unit of the weights (round 3): the ranks are handed the weights times a common f
       every result equals the statistics of the UNSCALED samples for WScale = 1/1024 and 1024, WeightScaleLemma;
       an absolute threshold in the "nothing weighed yet" test -- ZeroGuard = "tolerant" -- passes at WScale = 1 and
       is refuted at 1/256).  Bindings: the exported vectors are also run with every weight multiplied by 2**e
-      (WEXPS: 2**-30 ~ 1e-9 ... 2**-100 ~ 1e-30, 2**40; a power of two, so the floats are the exported rationals
+      (WEXPS: 2**-27 ~ 7e-9, 2**-100 ~ 1e-30, 2**40; a power of two, so the floats are the exported rationals
       times the factor exactly) through all three paths; accumulators wcount / M2 are expected to carry the factor,
       mean / variance / std / derived summaries not.  Event logs are written in units of the run's factor.  Zero
       masks are also realised as weights of 2**-60 (mixed magnitudes: leading dead points of a nested-sampling run).
@@ -55,7 +55,7 @@ MAX_SIZE = 6
 # =============================================================================================
 _W = dict(installed=False, seq=0, events=None, log=False, nobj=0, proj={}, cur_i=-1, last_cv=None,
           pv=None, opt=None, lin=None, wunit=1.0)
-WEXPS = (-30, -100, 40)          # weights are handed over times 2**e (quick and thorough)
+WEXPS = (-27, -100, 40)          # weights are handed over times 2**e (quick and thorough)
 WEXPS_THOROUGH = (-12, -60, -200, 100)
 TINY = -60                       # a masked weight realised as k/4 * 2**TINY instead of exactly zero
 
@@ -1010,11 +1010,12 @@ def execute(ctx, runner, rng, vv, tv, q):
     ZPROF = 0.5 if q else 1.0        # share of the zero-mask vectors (3..6 ranks) run through generate_profiles
     # unit of the weights: every weight of the vector times 2**e, e cycling through `exps`
     exps = WEXPS if q else WEXPS + WEXPS_THOROUGH
-    SC_SMALL = 0.3 if q else 1.0     # share of the small exhaustive vectors (n <= 3) also run with scaled weights (OnlineVariance path)
-    SC_TRACE = 0.35 if q else 1.0    # share of the scaled runs whose event logs go to TLC
-    SC_PROF = 0.3 if q else 1.0      # share of the generate_profiles vectors also run with scaled weights
-    SC_DER = 0.5 if q else 1.0       # share of the generic derived-trace vectors also run with scaled weights
-    TINY_SHARE = 0.4 if q else 1.0   # share of the zero-mask vectors also run with 2**TINY instead of zero
+    SC_BIG = 0.5 if q else 1.0       # share of the generic / zero-mask vectors also run with scaled weights (OnlineVariance path)
+    SC_SMALL = 0.15 if q else 1.0    # the same for the small exhaustive vectors (n <= 3)
+    SC_TRACE = 0.3 if q else 1.0     # share of the scaled runs whose event logs go to TLC
+    SC_PROF = 0.25 if q else 1.0     # share of the generate_profiles vectors also run with scaled weights
+    SC_DER = 0.5 if q else 1.0       # share of the generic derived-trace sample sets also run with scaled weights
+    TINY_SHARE = 0.25 if q else 1.0  # share of the zero-mask vectors also run with 2**TINY instead of zero
     nexp = [0]
 
     def next_exp():
@@ -1032,7 +1033,7 @@ def execute(ctx, runner, rng, vv, tv, q):
             items.append((v, case_from_vector(v, next_tid(), 'ov', rng)))
             if nr > 1 and v['n'] >= 2 and rng.random() < (0.25 if q else 1.0):
                 items.append((v, case_from_vector(v, next_tid(), 'ov', rng, partition='random')))
-            if v['n'] >= 2 and (v['n'] >= 4 or haszero(v) or rng.random() < SC_SMALL):
+            if v['n'] >= 2 and rng.random() < (SC_BIG if (v['n'] >= 4 or haszero(v)) else SC_SMALL):
                 part = 'random' if (nr > 1 and rng.random() < 0.25) else 'vector'
                 items.append((v, case_from_vector(v, next_tid(), 'ov', rng, partition=part, wexp=next_exp())))
             if haszero(v) and rng.random() < TINY_SHARE:
